@@ -1,1 +1,9 @@
-"""vk - solver-based checking kit for pyrefact (see ../DESIGN.md)."""
+"""Verification kit for pyrefact (see /verif/DESIGN.md)."""
+import os as _os
+import sys as _sys
+
+# vendored reference shims (pandas) for the programs of the rule families: last on the path, so a real installation
+# of the library, if there ever is one, wins
+_SHIMS = _os.path.join(_os.path.dirname(_os.path.dirname(_os.path.abspath(__file__))), "shims")
+if _SHIMS not in _sys.path:
+    _sys.path.append(_SHIMS)
